@@ -60,6 +60,67 @@ class C08(IRProp):
                    "every surviving original instruction is inside a procedure iff it was; with insertions only, the state at every original "
                    "instruction is unchanged and every inserted instruction has the state of the insertion point")
 
+    def tracker_cases(self, n, tag):
+        """random directive tables over 1-5 blocks (code and data, four bytes each): (model line, what _CFIProcedureTracker answers)"""
+        import gtirb
+        from gtirb_rewriting._auxdata import NULL_UUID
+        from gtirb_rewriting.rewriting import _CFIProcedureTracker
+        from gtirb_test_helpers import add_code_block, add_data_block, add_text_section, create_test_module
+        from vlib import common as C
+        rnd = C.rng(tag)
+        name = {"S": ".cfi_startproc", "E": ".cfi_endproc", "O": ".cfi_undefined"}
+        out = []
+        for _ in range(n):
+            ir, m = create_test_module(gtirb.Module.FileFormat.ELF, gtirb.Module.ISA.X64)
+            _, bi = add_text_section(m, address=0x1000)
+            blocks, marks = [], []
+            wellformed = rnd.random() < 0.5
+            open_ = False
+            for idx in range(rnd.randint(1, 5)):
+                code = rnd.random() < 0.8
+                b = (add_code_block if code else add_data_block)(bi, b"\x90" * 4)
+                blocks.append(b)
+                tab = {}
+                for off in sorted(rnd.sample(range(5), rnd.randint(0, 3))):
+                    if wellformed:
+                        ds = []
+                        for _k in range(rnd.randint(1, 2)):
+                            k_ = rnd.choice("SO") if not open_ else rnd.choice("EOO")
+                            open_ = {"S": True, "E": False}.get(k_, open_)
+                            ds.append(k_)
+                    else:
+                        ds = [rnd.choice("SEOO") for _k in range(rnd.randint(1, 3))]
+                    tab[off] = ds
+                items = list(tab.items())
+                rnd.shuffle(items)              # the order of the entries of a table carries no meaning
+                for off, ds in items:
+                    m.aux_data["cfiDirectives"].data[gtirb.Offset(b, off)] = [(name[k_], [3] if k_ == "O" else [], NULL_UUID) for k_ in ds]
+                if code:
+                    for off in sorted(tab):
+                        marks += [(idx, off, k_) for k_ in tab[off]]
+            try:
+                tr = _CFIProcedureTracker(m, blocks)
+                impl = "".join("1" if tr.in_procedure(i, o) else "0" for i in range(len(blocks)) for o in range(5))
+            except Exception as e:   # noqa
+                impl = "err " + type(e).__name__
+            line = f"tracker {len(marks)} " + " ".join(f"{i} {o} {k_}" for i, o, k_ in marks) + f" {len(blocks) * 5} " + \
+                " ".join(f"{i} {o}" for i in range(len(blocks)) for o in range(5))
+            out.append((line, impl))
+        return out
+
+    def correspondence(self, tier, ctx):
+        from vlib import common as C
+        res = super().correspondence(tier, ctx)
+        cases = self.tracker_cases(1000 if tier == "quick" else 8000, "c08-tracker")
+        got = C.run_driver("ir", [l for l, _ in cases])
+        for (line, impl), g in zip(cases, got):
+            if impl != g:
+                res["disagreements"].append({"tracker": line, "implementation": impl, "model": g})
+        res["evaluations"] += len(cases)
+        res["dist"]["procedure_tracker_tables"] = len(cases)
+        res["disagreements"] = res["disagreements"][:20]
+        return res
+
     def spec(self, seed, case, r):
         if r["error"] is not None:
             return []
